@@ -38,6 +38,11 @@ def default_profile(rng, tier="quick"):
         "lb_step": rng.random() < 0.5,  # lb != 0 / step != 1 allowed
         "max_stmts": 24,
     }
+    if tier == "thorough" and rng.random() < 0.3:
+        # deeper / larger programs in the thorough tier
+        p["max_depth"] = rng.choice([3, 4])
+        p["top_stmts"] = rng.randint(5, 9)
+        p["max_stmts"] = 40
     return p
 
 
